@@ -30,7 +30,6 @@ use chaingen::{
                 TxPointer as TxPointerField,
             },
         },
-        services::executor::TransactionExecutionResult,
     },
     metered_size,
 };
@@ -207,9 +206,35 @@ impl Judge<'_> {
             if let Some((inp, out, true)) = base_flow(tx, params.base_asset_id()) {
                 c.report.count("c03.fee_vs_balance_checked");
                 if inp.checked_sub(out) != Some(*st.result.total_fee()) {
+                    // known discrepancy: the VM refunds as if predicates had used no gas. Classify exactly.
+                    let (pred_gas, tip) = match tx {
+                        Transaction::Script(s) => {
+                            use chaingen::fuel_core_types::fuel_tx::field::{
+                                Inputs,
+                                Tip,
+                            };
+                            (
+                                s.inputs().iter().filter_map(|i| i.predicate_gas_used()).sum::<u64>(),
+                                s.tip(),
+                            )
+                        }
+                        _ => (0, 0),
+                    };
+                    let has_pred = crate::model::tx_parts(tx)
+                        .map(|(i, _)| i.iter().any(|i| i.predicate_gas_used().is_some()))
+                        .unwrap_or(false);
+                    let factor = params.fee_params().gas_price_factor() as u128;
+                    let without_pred = ((st.result.total_gas().saturating_sub(pred_gas)) as u128 * plan.gas_price as u128).div_ceil(factor) + tip as u128;
+                    let explained = has_pred && pred_gas > 0 && inp.checked_sub(out).map(|d| d as u128) == Some(without_pred);
                     c.violation(
-                        "fee_differs_from_balance_delta",
-                        format!("tx {:x}: base in {inp}, base out {out}, total_fee {}", st.id, st.result.total_fee()),
+                        if explained { "fee_differs_from_balance_delta predicate_inputs" } else { "fee_differs_from_balance_delta other" },
+                        format!(
+                            "tx {:x}: base in {inp}, base out {out}, total_fee {}, total_gas {}, predicate gas {pred_gas}, gas price {}",
+                            st.id,
+                            st.result.total_fee(),
+                            st.result.total_gas(),
+                            plan.gas_price
+                        ),
                         replay(),
                     );
                 }
@@ -231,7 +256,12 @@ impl Judge<'_> {
         }
         if size_sum > size_limit {
             c.violation(
-                &format!("size_limit_exceeded_with_size_{}_source", by(source.respects_size())),
+                if source.respects_size() {
+                    // a size-respecting source only adds what fits: the excess comes from forced (L1) transactions
+                    "size_limit_exceeded_by_forced_transactions"
+                } else {
+                    "size_limit_exceeded_with_size_ignoring_source"
+                },
                 format!(
                     "sum of metered transaction sizes {size_sum} > block_transaction_size_limit {size_limit} ({} txs, source {})",
                     count,
@@ -383,7 +413,7 @@ impl Judge<'_> {
 pub fn run(args: &Args, report: &Report) {
     let ctx = Ctx::new(args, report);
     let shards = args.by_tier(16, 32);
-    let sessions = args.by_tier(4, 40);
+    let sessions = args.by_tier(20, 240);
     let blocks = args.by_tier(10u32, 14);
     let c = ctx.clone();
     for_each_session(args, report, shards, sessions, move |case, rng| {
@@ -474,18 +504,20 @@ pub fn run(args: &Args, report: &Report) {
             }
         }
     });
-    report.require("c03.gas_limit_binding.ignoring", args.by_tier(40, 400));
-    report.require("c03.gas_limit_binding.respecting", args.by_tier(40, 400));
-    report.require("c03.size_limit_binding.ignoring", args.by_tier(30, 300));
-    report.require("c03.size_limit_binding.respecting", args.by_tier(30, 300));
-    report.require("c03.count_limit_binding.ignoring", 1);
-    report.require("c03.mint_nonzero", args.by_tier(100, 1_000));
-    report.require("c03.mint_zero", args.by_tier(100, 1_000));
-    report.require("c03.mutant_rejected.amount_plus.consistent_header", args.by_tier(200, 2_000));
-    report.require("c03.mutant_rejected.index_plus.consistent_header", args.by_tier(200, 2_000));
-    report.require("c03.mutant_rejected.price_plus.consistent_header", args.by_tier(30, 300));
-    report.require("c03.mutant_rejected.missing.consistent_header", args.by_tier(200, 2_000));
-    report.require("c03.fee_vs_balance_checked", args.by_tier(200, 2_000));
+    if args.replay.is_none() {
+        report.require("c03.gas_limit_binding.ignoring", args.by_tier(40, 400));
+        report.require("c03.gas_limit_binding.respecting", args.by_tier(40, 400));
+        report.require("c03.size_limit_binding.ignoring", args.by_tier(30, 300));
+        report.require("c03.size_limit_binding.respecting", args.by_tier(30, 300));
+        report.require("c03.count_limit_binding.ignoring", 1);
+        report.require("c03.mint_nonzero", args.by_tier(100, 1_000));
+        report.require("c03.mint_zero", args.by_tier(100, 1_000));
+        report.require("c03.mutant_rejected.amount_plus.consistent_header", args.by_tier(200, 2_000));
+        report.require("c03.mutant_rejected.index_plus.consistent_header", args.by_tier(200, 2_000));
+        report.require("c03.mutant_rejected.price_plus.consistent_header", args.by_tier(30, 300));
+        report.require("c03.mutant_rejected.missing.consistent_header", args.by_tier(200, 2_000));
+        report.require("c03.fee_vs_balance_checked", args.by_tier(200, 2_000));
+    }
     report.finish(
         args,
         "exploration",
